@@ -2,10 +2,13 @@
 import os
 ENV = os.path.join(os.path.dirname(os.path.dirname(os.path.abspath(__file__))), "env")
 
+CG = "bindgen/codegen/mod.rs"
+CI = r"^impl CodeGenerator for CompInfo$"
+
 UNIT = {
     "name": "derives",
     "env": [os.path.join(ENV, "derives_env.rs")],
-    "declared_trusted": {r"external_body": 15},
+    "declared_trusted": {r"external_body": 23},
     "items": [
         {"kind": "fn", "file": "bindgen/codegen/mod.rs", "name": "derives_of_item", "ret": "r",
          "ensures": [
@@ -15,6 +18,41 @@ UNIT = {
              "!(packed && !r.copy) ==> r.debug == (item.s_debug(ctx) && !item.s_annotations().s_no_debug())",
              "!(packed && !r.copy) ==> r.default_ == (item.s_default(ctx) && !item.s_annotations().s_no_default())",
              "!(packed && !r.copy) ==> (r.hash == item.s_hash(ctx) && r.partial_ord == item.s_partialord(ctx) && r.ord == item.s_ord(ctx) && r.partial_eq == item.s_partialeq(ctx) && r.eq == item.s_eq(ctx))",
+         ]},
+        {"kind": "enum", "file": "bindgen/ir/derive.rs", "name": "CanDerive", "prefix": "#[derive(Copy, Clone, PartialEq, Eq, Structural)]"},
+        # hand-written impls (property C08: "Where bindgen writes an impl by hand instead ...", and a trait never
+        # appears with "disabled derive options" / on "user-excluded types"): the four decisions, extracted as statements
+        {"kind": "fn", "file": CG, "name": "needs_debug_impl", "impl": CI, "ret": "r_unit",
+         "closure": {"enclosing": "codegen", "anchor": "if !derivable_traits.contains(DerivableTraits::DEBUG) {", "nth": 0, "stmt": True,
+                     "signature": "fn needs_debug_impl(ctx: &BindgenContext, item: &Item, derivable_traits: DerivableTraits, needs_debug_impl: &mut bool)",
+                     "prefix": "{", "suffix": "}"},
+         "subst": [("needs_debug_impl =", "*needs_debug_impl =", 1, "R18 captured by mutable reference")],
+         "ensures": [
+             "*final(needs_debug_impl) == (if derivable_traits.debug { *old(needs_debug_impl) } else { ctx.spec_options().derive_debug && ctx.spec_options().impl_debug && !ctx.s_no_debug_by_name(item) && !item.s_annotations().s_no_debug() })",
+         ]},
+        {"kind": "fn", "file": CG, "name": "needs_default_impl", "impl": CI, "ret": "r_unit",
+         "closure": {"enclosing": "codegen", "anchor": "if !derivable_traits.contains(DerivableTraits::DEFAULT) {", "nth": 0, "stmt": True,
+                     "signature": "fn needs_default_impl(self_: &CompInfo, ctx: &BindgenContext, item: &Item, derivable_traits: DerivableTraits, needs_default_impl: &mut bool)",
+                     "prefix": "{", "suffix": "}"},
+         "subst": [("needs_default_impl =", "*needs_default_impl =", 1, "R18 captured by mutable reference"), ("self", "self_", 1, "R18 captured self")],
+         "ensures": [
+             "*final(needs_default_impl) == (if derivable_traits.default_ { *old(needs_default_impl) } else { ctx.spec_options().derive_default && !self_.s_forward_decl() && !ctx.s_no_default_by_name(item) && !item.s_annotations().s_no_default() })",
+         ]},
+        {"kind": "fn", "file": CG, "name": "needs_clone_impl", "impl": CI, "ret": "r_unit",
+         "closure": {"enclosing": "codegen", "anchor": "if derivable_traits.contains(DerivableTraits::COPY)", "nth": 0, "stmt": True,
+                     "signature": "fn needs_clone_impl(derivable_traits: DerivableTraits, needs_clone_impl: &mut bool)",
+                     "prefix": "{", "suffix": "}"},
+         "subst": [("needs_clone_impl =", "*needs_clone_impl =", 1, "R18 captured by mutable reference")],
+         "ensures": [
+             "*final(needs_clone_impl) == (if derivable_traits.copy && !derivable_traits.clone { true } else { *old(needs_clone_impl) })",
+         ]},
+        {"kind": "fn", "file": CG, "name": "needs_partialeq_impl", "impl": CI, "ret": "r_unit",
+         "closure": {"enclosing": "codegen", "anchor": "if !derivable_traits.contains(DerivableTraits::PARTIAL_EQ) {", "nth": 0, "stmt": True,
+                     "signature": "fn needs_partialeq_impl(ctx: &BindgenContext, item: &Item, derivable_traits: DerivableTraits, needs_partialeq_impl: &mut bool)",
+                     "prefix": "{", "suffix": "}"},
+         "subst": [("needs_partialeq_impl =", "*needs_partialeq_impl =", 1, "R18 captured by mutable reference")],
+         "ensures": [
+             "*final(needs_partialeq_impl) == (if derivable_traits.partial_eq { *old(needs_partialeq_impl) } else { ctx.spec_options().derive_partialeq && ctx.spec_options().impl_partialeq && ctx.s_peq_or_pord(item.s_id()) == CanDerive::Manually })",
          ]},
     ],
 }
